@@ -234,7 +234,10 @@ int vmd_execute(VmdClient *client, const uint8_t *blob, uint32_t blob_size) {
 #if __BYTE_ORDER__ != __ORDER_LITTLE_ENDIAN__
             code = (int32_t)__builtin_bswap32((uint32_t)code);
 #endif
-            return (int)code;
+            /* A negative value means "communication error" to the callers, and the process can
+             * only exit with the low eight bits anyway: main returning -1 is status 255, as when
+             * the module is run standalone. */
+            return (int)((uint32_t)code & 0xFFu);
         }
 
         default:
